@@ -317,6 +317,8 @@ type Out struct {
 	Err0    error    `json:"-"`
 	// Held: what went wrong with a listing sequence kept from the operation before (Env.HoldListings)
 	Held string `json:"held,omitempty"`
+	// Overlap: what went wrong with a second reader opened beside this operation's (Env.OverlapReads)
+	Overlap string `json:"overlap,omitempty"`
 }
 
 // Code maps an error to the string used in Out.Err.
@@ -359,6 +361,35 @@ func (o *Out) read(r ociregistry.BlobReader, err error) {
 	}
 }
 
+// read opens a reader and reads it into o. With OverlapReads, the content read last by digest is opened
+// once more after this reader and before this reader is read, is read to its end and closed - twice, as
+// an explicit Close followed by a deferred one does: readers are independent of each other, so it yields
+// what it did (if it is still there) and this reader yields what it was opened for.
+func (e *Env) read(o *Out, open func() (ociregistry.BlobReader, error), byDigest bool) {
+	if !e.OverlapReads {
+		o.read(open())
+		return
+	}
+	r, err := open()
+	if err == nil && e.lastOpen != nil {
+		if r2, err2 := e.lastOpen(); err2 == nil {
+			data, rerr := io.ReadAll(r2)
+			r2.Close()
+			r2.Close()
+			if rerr == nil && !bytes.Equal(data, e.lastData) {
+				o.Overlap = fmt.Sprintf("content read earlier by digest (%d bytes, sha256 %x) and read again while another reader was open yielded %d bytes, sha256 %x", len(e.lastData), sha256.Sum256(e.lastData), len(data), sha256.Sum256(data))
+			}
+		}
+	}
+	o.read(r, err)
+	if err == nil {
+		r.Close() // a second Close is harmless
+		if byDigest && o.ReadErr == "" {
+			e.lastOpen, e.lastData = open, o.Data
+		}
+	}
+}
+
 // Writer is a live upload handle held in a slot.
 type Writer struct {
 	W    ociregistry.BlobWriter
@@ -382,6 +413,10 @@ type Env struct {
 	// HoldListings: see Exec.
 	HoldListings bool
 	held         *held
+	// OverlapReads: see read.
+	OverlapReads bool
+	lastOpen     func() (ociregistry.BlobReader, error)
+	lastData     []byte
 }
 
 // NewEnv returns a fresh environment.
@@ -506,7 +541,8 @@ func (e *Env) exec1(op Op) (o Out) {
 		o.setErr(err)
 		o.Desc = liteDesc(got)
 	case "getBlob":
-		o.read(reg.GetBlob(ctx, e.repo(op.R), u.BlobDigest(op.B)))
+		repo, dg := e.repo(op.R), u.BlobDigest(op.B)
+		e.read(&o, func() (ociregistry.BlobReader, error) { return reg.GetBlob(ctx, repo, dg) }, true)
 	case "getBlobRange":
 		o.read(reg.GetBlobRange(ctx, e.repo(op.R), u.BlobDigest(op.B), op.O0, op.O1))
 	case "resolveBlob":
@@ -528,7 +564,8 @@ func (e *Env) exec1(op Op) (o Out) {
 		o.setErr(err)
 		o.Desc = liteDesc(d)
 	case "getManifest":
-		o.read(reg.GetManifest(ctx, e.repo(op.R), u.ManDigest(op.M)))
+		repo, dg := e.repo(op.R), u.ManDigest(op.M)
+		e.read(&o, func() (ociregistry.BlobReader, error) { return reg.GetManifest(ctx, repo, dg) }, true)
 	case "resolveManifest":
 		d, err := reg.ResolveManifest(ctx, e.repo(op.R), u.ManDigest(op.M))
 		o.setErr(err)
@@ -536,7 +573,8 @@ func (e *Env) exec1(op Op) (o Out) {
 	case "deleteManifest":
 		o.setErr(reg.DeleteManifest(ctx, e.repo(op.R), u.ManDigest(op.M)))
 	case "getTag":
-		o.read(reg.GetTag(ctx, e.repo(op.R), e.tag(op.T)))
+		repo, tag := e.repo(op.R), e.tag(op.T)
+		e.read(&o, func() (ociregistry.BlobReader, error) { return reg.GetTag(ctx, repo, tag) }, false)
 	case "resolveTag":
 		d, err := reg.ResolveTag(ctx, e.repo(op.R), e.tag(op.T))
 		o.setErr(err)
